@@ -1229,7 +1229,13 @@ struct ical_parser_s {
 	size_t bix;
 
 	size_t six;
-	char stash[1024U];
+	/* the stash ends in a newline, it's the next byte that tells
+	 * whether the line goes on */
+	unsigned int eolp:1U;
+	/* the current line is too long for us, skip it */
+	unsigned int skip:1U;
+	/* room for a line in its raw form, folds, escapes and all */
+	char stash[2048U];
 };
 
 #define ICAL_EOP	((struct ical_vevent_s*)0x1U)
@@ -1538,75 +1544,85 @@ out:
 static struct ical_vevent_s*
 _ical_pull(struct ical_parser_s p[static 1U])
 {
-/* pull-version of read_ical */
+/* pull-version of read_ical
+ * The stash collects the raw bytes of one logical line, i.e. a line along
+ * with its continuation lines, no matter how they are spread over the
+ * chunks pushed to us.  Only once the line is known to be complete is it
+ * unfolded and unescaped (once, as a whole) and handed to _ical_proc(). */
 	struct ical_vevent_s *res = NULL;
-	const char *eol;
 
 #define BP	(p->buf + p->bix)
 #define BZ	(p->bsz - p->bix)
 #define BI	(p->bix)
-	/* before delving into the current buffer check the stash,
-	 * we might have put a multiline there and only now it
-	 * becomes apparent that it's indeed a valid line when
-	 * examinging the new bytes in the parser buffer */
-	if (p->six && p->stash[p->six] == '\001') {
-		/* go back to 0 termination */
-		p->stash[p->six] = '\0';
-		/* now check if the stuff in the buffer happens
-		 * to start with a single allowed whitespace in
-		 * which case we enter the normal chop_more
-		 * procedure */
-		if (LIKELY(!BZ || (*BP != ' ' && *BP != '\t'))) {
-			/* also when there is nothing to look at, that's how
-			 * callers tell us there won't be more */
-			goto proc;
-		}
-		/* just get on with it */
-	}
-chop_more:
-	/* chop _p->buf into lines (possibly multilines) */
-	for (const char *tmp = BP, *const ep = BP + BZ;
-	     (eol = memchr(tmp, '\n', ep - tmp)) != NULL &&
-		     ++eol < ep && (*eol == ' ' || *eol == '\t'); tmp = eol);
-	if (UNLIKELY((eol == NULL || eol >= BP + BZ) &&
-		     BZ >= sizeof(p->stash) - p->six)) {
-		/* we must have stopped mid-stream at the end of the buffer
-		 * however, our stash space is too small to hold the contents
-		 * we'll just fuck off and hope nobody will notice */
-		p->six = 0U;
-	} else if (UNLIKELY(eol == NULL || eol >= BP + BZ)) {
-		/* copy what we've got to the stash for small buffers */
-		char *restrict sp = p->stash + p->six;
-		size_t sz = sizeof(p->stash) - p->six;
+	do {
+		const char *eol;
+		size_t n;
 
-		p->six += esccpy(sp, sz, BP, BZ);
-		if (eol != NULL) {
-			/* means at least we've seen a \n up there
-			 * leave a mark in the stash buffer so the
-			 * pre-examination in the next iteration can
-			 * rule whether this was a multi-line or in
-			 * fact a complete line */
-			p->stash[p->six] = '\001';
+		if (p->eolp) {
+			/* the stash ends in a newline, the next byte decides
+			 * whether the line is continued, and when there is
+			 * nothing to look at, that's how callers tell us
+			 * there won't be more */
+			if (!BZ || (*BP != ' ' && *BP != '\t')) {
+				p->eolp = 0U;
+				goto proc;
+			}
+			/* go on collecting */
+			p->eolp = 0U;
+		} else if (!BZ) {
+			/* we need more data */
+			break;
 		}
-	} else {
-		const char *bp = BP;
-		const size_t llen = eol - bp;
-		char *restrict sp = p->stash + p->six;
-		size_t slen = sizeof(p->stash) - p->six;
 
+		/* chop _p->buf into lines (possibly multilines) */
+		for (const char *tmp = BP, *const ep = BP + BZ;
+		     (eol = memchr(tmp, '\n', ep - tmp)) != NULL &&
+			     ++eol < ep && (*eol == ' ' || *eol == '\t'); tmp = eol);
+
+		/* either a whole (multi)line or all there is */
+		n = (eol != NULL && eol < BP + BZ) ? (size_t)(eol - BP) : BZ;
+		if (UNLIKELY(p->skip)) {
+			/* still getting rid of an overlong line */
+			;
+		} else if (UNLIKELY(n >= sizeof(p->stash) - p->six)) {
+			/* our stash space is too small to hold the contents
+			 * ignore the whole of this line */
+			p->six = 0U;
+			p->skip = 1U;
+		} else {
+			memcpy(p->stash + p->six, BP, n);
+			p->six += n;
+		}
+		if (eol == NULL || eol >= BP + BZ) {
+			/* we have stopped mid-stream at the end of the buffer,
+			 * if that happens to be a newline the next chunk
+			 * will tell if this was a multi-line or in fact a
+			 * complete line */
+			p->eolp = eol != NULL;
+			BI += n;
+			break;
+		}
 		/* ... pretend we've consumed it all */
-		BI += llen;
-
-		/* copy to stash and unescape */
-		slen = esccpy(sp, slen, bp, llen);
-		/* store new stash pointer */
-		p->six += slen;
+		BI += n;
 
 	proc:
-		if (p->six && (res = _ical_proc(p)) == NULL) {
-			goto chop_more;
+		if (UNLIKELY(p->skip)) {
+			/* the end of the overlong line, finally */
+			p->skip = 0U;
+			p->six = 0U;
+			continue;
 		}
-	}
+		/* unfold and unescape in one go */
+		with (char tmp[1024U]) {
+			p->six = esccpy(tmp, sizeof(tmp), p->stash, p->six);
+			memcpy(p->stash, tmp, p->six + 1U);
+		}
+		if (p->six && (res = _ical_proc(p)) != NULL) {
+			break;
+		}
+		/* empty, ignored or otherwise uninspiring line */
+		p->six = 0U;
+	} while (1);
 #undef BP
 #undef BZ
 #undef BI
